@@ -28,8 +28,11 @@ def payload_copies(b):
     for c in b.calls:
         last = c.target.rsplit('::', 1)[-1]
         g = (c.callee.get('g') or [''])[0]
-        if last in COPY_METHODS and PAY.search(g):
-            out.append((c, last, g))
+        inherent = re.match(r'^(std::vec::Vec::<|std::string::String::|std::collections::HashMap::<|(alloc|core|std)::slice::<impl \[T\]>::|(alloc|core|std)::str::<impl str>::)', c.target)
+        if last in COPY_METHODS and (PAY.search(g) or inherent):
+            if last in ('to_owned', 'into_owned', 'repeat', 'concat') and re.search(r'impl str>', c.target) and not PAY.search(g):
+                continue   # string literals in error messages
+            out.append((c, last, g or c.target))
     return out
 
 
